@@ -1,5 +1,6 @@
 SPECIFICATION Spec
 CONSTANTS NC = 2 NI = 1 Delays = {1} PassTimeouts = {} Filters = {"all"}
-          Nesting = FALSE ReAdds = 1 ExtFut = FALSE ReapOwnOnly = FALSE LateCancel = TRUE
+          Nesting = FALSE ReAdds = 1 ExtFut = 0 ReapOwnOnly = FALSE LateCancel = TRUE
           HScripts = {} CoHandlers = FALSE ClaimFirst = TRUE
+          TMShutdown = FALSE ShutGuard = FALSE NFut = 3 FutLoop = "all"
 INVARIANT NoTimeoutAfterClaim
